@@ -76,6 +76,12 @@ def _cases(tier, r):
             for rng_kind in ("inside", "cross"):
                 for paranoid in ((True,) if tier == "quick" else (True, False)):
                     out.append((kind, params, phase, rng_kind, r.choice((0.5, 1.0, 2.0)), paranoid))
+    # rotated field basis: non-diagonal Hessian at the traced minimum (the spinodal is where an EIGENVALUE vanishes)
+    for theta in ((0.6,) if tier == "quick" else (0.6, math.pi / 4, 1.3)):
+        for phase, rng_kind in (("low", "cross"), ("low", "inside"), ("high", "cross")):
+            out.append(("toy1r", dict(theta=theta), phase, rng_kind, 1.0, True))
+            if tier == "thorough":
+                out.append(("toy1r", dict(theta=theta, m2=0.3), phase, rng_kind, 2.0, False))
     if tier == "thorough":
         out += [("toy1", dict(u=50.0), "low", "cross", 1.0, True), ("toy1", dict(u=0.02), "high", "inside", 1.0, True)]
     return out
@@ -94,6 +100,17 @@ def _setup(kind, params, phase, rng_kind):
         guess = Fields([0.0]) if phase == "high" else Fields([float(ref.phiBroken(Tn))])
         spin_lo, spin_hi = (ref.T0, None) if phase == "high" else (None, ref.T1())
         exact_field = (lambda T: np.array([0.0])) if phase == "high" else (lambda T: np.array([float(ref.phiBroken(T))]))
+        exact_V = (lambda T: float(ref.VSym(T))) if phase == "high" else (lambda T: float(ref.VBroken(T)))
+        model = ref
+    elif kind == "toy1r":
+        ref = models.toy1r_class()(**params)
+        Tc = ref.Tc()
+        Tn = ref.T0 + 0.6 * (Tc - ref.T0)
+        pb = float(ref.phiBroken(Tn))
+        ref.configureDerivatives(WallGo.VeffDerivativeSettings(temperatureVariationScale=0.1 * ref.T0, fieldValueVariationScale=[pb, pb]))
+        guess = Fields([0.0, 0.0]) if phase == "high" else Fields(ref.brokenPoint(Tn).tolist())
+        spin_lo, spin_hi = (ref.T0, None) if phase == "high" else (None, ref.T1())
+        exact_field = (lambda T: np.array([0.0, 0.0])) if phase == "high" else (lambda T: ref.brokenPoint(T))
         exact_V = (lambda T: float(ref.VSym(T))) if phase == "high" else (lambda T: float(ref.VBroken(T)))
         model = ref
     else:
